@@ -131,10 +131,14 @@ ENGINE_FAIL_PAT = ("unwinding assertion", "is not currently supported", "unsuppo
 def run_group(group, harnesses, tier, hooks=False, stubbing=False, jobs=None, extra_args=()):
     """Run the harnesses of one group; returns list[Obligation]."""
     hs = [h for h in harnesses if tier == "thorough" or h.tier == "quick"]
+    if os.environ.get("VERIF_KANI_ONLY"):          # development aid: a subset of the harnesses
+        hs = [h for h in hs if h.name in os.environ["VERIF_KANI_ONLY"].split(",")]
     if not hs:
         return []
     prep(group)
     jobs = jobs or min(NCPU, max(2, len(hs)))
+    if os.environ.get("VERIF_KANI_JOBS"):
+        jobs = int(os.environ["VERIF_KANI_JOBS"])
     tmax = max(h.timeout for h in hs)
     tgt = os.path.join(WORK, f"kani-target-{group}")
     logp = os.path.join(LOGS, f"kani-{group}-{tier}-{os.getpid()}.log")
